@@ -388,6 +388,36 @@ class Outcome:
     pass
 
 
+def cli_args(sc, src_abs, dest_abs):
+    args = []
+    pre_s = 'localhost:' if sc.placement[0] == 'R' else ''
+    pre_d = 'localhost:' if sc.placement[1] == 'R' else ''
+    args += [pre_s + src_abs, pre_d + dest_abs]
+    for b, flag in (('newer', '--dest-file-newer'), ('older', '--dest-file-older'), ('same', '--files-same-time'),
+                    ('entry', '--dest-entry-needs-deleting'), ('root', '--dest-root-needs-deleting')):
+        v = sc.cfg[b]
+        word = {'P': 'prompt', 'E': 'error', 'S': 'skip', 'A': 'delete' if b in ('entry', 'root') else 'overwrite'}[v]
+        args += [flag, word]
+    if sc.dry:
+        args.append('--dry-run')
+    for f in sc.filters:
+        args += ['--filter', f]
+    return args
+
+
+def make_sandbox(sc, base):
+    """Builds outside/, src/ and (if any) dest/ for the scenario; returns (root, src_abs, dest_abs)."""
+    root = tempfile.mkdtemp(prefix='sc_', dir=base)
+    e2e.build_tree(os.path.join(root, 'outside'), sc.outside or {'': {'k': 'dir'}})
+    src_abs = os.path.join(root, 'src')
+    e2e.build_tree(src_abs, sc.src)
+    dparent = root if sc.dest_anc == 'ok' else os.path.join(root, 'missing1', 'missing2')
+    dest_abs = os.path.join(dparent, 'dest')
+    if sc.dest:
+        e2e.build_tree(dest_abs, sc.dest)
+    return root, src_abs, dest_abs
+
+
 def run_scenario(sc, binary, jbin, base, fake_ssh=None, timeout=60, extra_env=None, keep=False):
     """Builds the sandbox under `base`, asks the model, runs the CLI, returns an Outcome with
     .impl (observation dict), .model (parsed model answer), .mismatch (list of strings)."""
@@ -413,19 +443,7 @@ def run_scenario(sc, binary, jbin, base, fake_ssh=None, timeout=60, extra_env=No
             env['RJRSSYNC_VERIF_FAULTS'] = ','.join(fl)
         if extra_env:
             env.update(extra_env)
-        args = []
-        pre_s = 'localhost:' if sc.placement[0] == 'R' else ''
-        pre_d = 'localhost:' if sc.placement[1] == 'R' else ''
-        args += [pre_s + src_abs, pre_d + dest_abs]
-        for b, flag in (('newer', '--dest-file-newer'), ('older', '--dest-file-older'), ('same', '--files-same-time'),
-                        ('entry', '--dest-entry-needs-deleting'), ('root', '--dest-root-needs-deleting')):
-            v = sc.cfg[b]
-            word = {'P': 'prompt', 'E': 'error', 'S': 'skip', 'A': 'delete' if b in ('entry', 'root') else 'overwrite'}[v]
-            args += [flag, word]
-        if sc.dry:
-            args.append('--dry-run')
-        for f in sc.filters:
-            args += ['--filter', f]
+        args = cli_args(sc, src_abs, dest_abs)
         r = e2e.run_cli(binary, args, env=env, timeout=timeout, fake_ssh=fake_ssh if 'R' in sc.placement else None)
         text = r['stdout'] + r['stderr']
         after = {'src': e2e.snapshot(src_abs), 'dest': e2e.snapshot(dest_abs), 'outside': e2e.snapshot(os.path.join(root, 'outside'))}
